@@ -1,12 +1,53 @@
 (* C05_frag_proofs.v — OverlappingFieldsCanBeMerged with named fragment spreads: the lemmas for
    properties/C05.v (additions).
    - merge_sound_acyclic (C05_frag_sound.v): every reported conflict is a violation;
+   - merge_complete_no_oof (C05_frag_doc.v): every violation is found, unless the search ran out of fuel;
+   - merge_fuel_sufficient_acyclic (C05_frag_fuel.v): it never does on documents without fragment cycles;
+   - merge_iff_acyclic: the rule fires exactly when the specification is violated;
    - C05_statement_counterexample: the unrestricted statement C05_statement is false (an inline
-     fragment whose type condition names an unknown type). *)
+     fragment whose type condition names an unknown type), hence the hypothesis
+     [inline_conditions_known]. *)
 From GT Require Import Visitor Validate Merge Sexp.
 From GTS Require Import Annot WfSchema SpecRules SpecMerge SpecValid.
-From GTP Require Export C05_frag_graph C05_frag_spec C05_frag_sound.
+From GTP Require Export C05_frag_graph C05_frag_spec C05_frag_sound C05_frag_annot C05_frag_rank
+     C05_frag_complete C05_frag_global C05_frag_doc C05_frag_fuel.
 Local Open Scope string_scope.
+
+(* ------------------------------------------------------------------ the rule with named fragment spreads *)
+Theorem merge_iff_acyclic : forall s d,
+  wf_schema s = true -> rule_in_scope R_OverlappingFieldsCanBeMerged s d = true ->
+  NoDup (map node_pos (filter (fun x => match x with SField _ _ _ _ _ _ _ => true | _ => false end) (doc_selections d))) ->
+  inline_conditions_known s d = true ->
+  (run_alone R_OverlappingFieldsCanBeMerged s d <> [] <-> violated R_OverlappingFieldsCanBeMerged s d = true).
+Proof.
+  intros s d Hwf Hscope Hpos Hknown. split.
+  - apply (merge_sound_acyclic s d Hwf Hscope).
+  - apply (merge_complete_no_oof s d Hwf Hscope Hpos Hknown).
+    apply merge_fuel_sufficient_acyclic. cbn [rule_in_scope] in Hscope.
+    apply andb_prop in Hscope. destruct Hscope as [Hscope _]. apply andb_prop in Hscope. destruct Hscope as [_ H].
+    apply negb_true_iff in H. exact H.
+Qed.
+
+(* the side condition on inline type conditions follows from KnownTypeNames when no type condition
+   names a type of the introspection system that the schema does not define *)
+Lemma inline_conditions_known_of_known_types s d :
+  violated R_KnownTypeNames s d = false ->
+  (forall n, In n (type_conditions d) -> mem_name n introspection_type_names = true -> type_by_name s n <> None) ->
+  inline_conditions_known s d = true.
+Proof.
+  intros Hk Hi. unfold inline_conditions_known. apply forallb_forall. intros x Hx.
+  destruct x as [p al n args dirs sp sels|p n dirs|p [tc|] dirs sp sels]; try reflexivity.
+  cbn [tc_ok]. cbn [violated] in Hk. unfold v_known_type_names in Hk.
+  assert (Hin : In tc (type_conditions d)).
+  { unfold type_conditions. apply in_or_app. right. apply in_flat_map.
+    exists (SInline p (Some tc) dirs sp sels). split; [exact Hx|left; reflexivity]. }
+  destruct (type_by_name s tc) as [t|] eqn:E; [reflexivity|]. exfalso.
+  assert (Hex : existsb (fun n => negb (type_exists s n)) (type_conditions d ++ map inner_type (variable_types d)) = true).
+  { apply existsb_exists. exists tc. split; [apply in_or_app; left; exact Hin|]. unfold type_exists. rewrite E. cbn [is_some orb].
+    destruct (mem_name tc introspection_type_names) eqn:Em; [|reflexivity].
+    exfalso. apply (Hi tc Hin Em). exact E. }
+  rewrite Hex in Hk. discriminate.
+Qed.
 
 (* ------------------------------------------------------------------ a counterexample to the full statement *)
 (* schema:  type Query { q: T }  type T { f: U }  type U { x: Int }  type A { x: String }
